@@ -19,6 +19,7 @@ META = {
     "assumptions": ["Iterator::any/all semantics"],
     "not_decided": ["element equality being RFC JSON equality (Value: PartialEq distinguishes 1 and 1.0)"],
 }
+META["explanation"] += ' R3 also: a missing argument is handed over as no element. R4 the engine never mentions an extension name outside the Queryable implementations and builds TestFunction::Custom from the name as written.'
 
 QT = "crate::query::queryable::Queryable"
 VAL = "serde_json::value::Value"
